@@ -191,10 +191,20 @@ Fixpoint insert_nat (x : nat) (l : list nat) : list nat :=
   | y :: r => if x <=? y then x :: l else y :: insert_nat x r
   end.
 Definition sort_nat (l : list nat) : list nat := fold_right insert_nat [] l.
+(* Vec::dedup: drop consecutive repetitions *)
+Fixpoint dedup_adj (l : list nat) : list nat :=
+  match l with
+  | [] => []
+  | x :: r => match r with
+              | [] => [x]
+              | y :: _ => if x =? y then dedup_adj r else x :: dedup_adj r
+              end
+  end.
 
-(* remap_projection_for_join_flatmap *)
+(* remap_projection_for_join_flatmap (after the repair: the sorted key list is deduplicated, so a
+   right column that is the key of several left columns is skipped once) *)
 Definition remap_jfm (lw : nat) (rk : list nat) (proj : list nat) : list nat :=
-  let sk := sort_nat rk in
+  let sk := dedup_adj (sort_nat rk) in
   map (fun idx =>
          if idx <? lw then idx
          else lw + fold_left (fun a k => if k <=? a then S a else a) sk (idx - lw)) proj.
@@ -245,8 +255,8 @@ Fixpoint nodupb (l : list nat) : bool :=
   match l with [] => true | x :: r => negb (memb x r) && nodupb r end.
 
 (* Well-formed relative to a database: schema lengths are the real tuple widths, projection and
-   key indices are in range, join key lists have equal length and no repeated right key, all
-   inputs of a Union have the same width.  [novoid]: the tree contains neither `Union []` nor
+   key indices are in range, join key lists have equal length, all inputs of a Union have the
+   same width.  [novoid]: the tree contains neither `Union []` nor
    `Filter(_, False)` (the shapes on which a node's schema width is not its tuple width). *)
 Fixpoint wfd (d : db) (t : ir) {struct t} : bool :=
   match t with
@@ -255,7 +265,7 @@ Fixpoint wfd (d : db) (t : ir) {struct t} : bool :=
   | Filter x p => wfd d x
   | Join l r lk rk s =>
       wfd d l && wfd d r && forallb (fun i => i <? width l) lk && forallb (fun i => i <? width r) rk
-      && (length lk =? length rk) && nodupb rk
+      && (length lk =? length rk)
       && (length s =? width l + length (nonkey_cols (width r) rk))
   | Distinct x => wfd d x
   | Union ts =>
